@@ -59,6 +59,10 @@ M = [
   '            ELSE IF DigLess(c.limit, cl) THEN Fail(c, outs, E_SizeLimit(c.limit, cl))',
   '            ELSE IF DigLess(c.limit, cl) \\/ c.limit = cl THEN Fail(c, outs, E_SizeLimit(c.limit, cl))',
   "MC_Conn.tla", "MC_Conn_quick.cfg", r"Refines|BodyBound"),
+ ("continue_before_limit_check", "HttpConn.tla",
+  '            ELSE IF DigLess(c.limit, cl) THEN Fail(c, outs, E_SizeLimit(c.limit, cl))',
+  '            ELSE IF DigLess(c.limit, cl) THEN Fail([c EXCEPT !.respQ = IF c.pending.h.expect THEN Append(@, Ser100(c.pending.v)) ELSE @], outs, E_SizeLimit(c.limit, cl))',
+  "MC_Server.tla", "MC_Server_progs.cfg", r"NoContinueForRefused"),
  ("failed_write_keeps_queue", "HttpConn.tla",
   'ClearWrite(c) == [c EXCEPT !.respQ = <<>>, !.respBuf = <<>>]',
   'ClearWrite(c) == [c EXCEPT !.respBuf = <<>>]',
